@@ -338,7 +338,9 @@ public:
             {
                 enumerators.push_back(
                     fmt::format(
-                        "    {} = '{}'", valid_value.name, valid_value.value));
+                        "    {} = '{}'",
+                        valid_value.name,
+                        utils::escape_literal(valid_value.value)));
             }
             else
             {
@@ -445,13 +447,13 @@ R"(
     constexpr bool operator()(
         ::sbepp::detail::access_by_tag_tag, {tag}) const noexcept
     {{
-        return {name}();
+        return this->{name}();
     }}
 
     SBEPP_CPP14_CONSTEXPR {class_name}& operator()(
         ::sbepp::detail::access_by_tag_tag, {tag}, const bool v) noexcept
     {{
-        return {name}(v);
+        return this->{name}(v);
     }}
 )",
                 // clang-format on
@@ -484,7 +486,7 @@ SBEPP_CPP14_CONSTEXPR Visitor&& operator()(
     ::sbepp::detail::visit_set_tag, Visitor&& visitor) const noexcept
 {{
     {visitors}
-    return std::forward<Visitor>(visitor);
+    return ::std::forward<Visitor>(visitor);
 }}
 )",
             // clang-format on
@@ -798,7 +800,7 @@ public:
 
 {accessors}
 
-    constexpr std::size_t
+    constexpr ::std::size_t
         operator()(::sbepp::detail::size_bytes_tag) const noexcept
     {{
         return {size};
